@@ -120,11 +120,11 @@ class Config:
         # per-frame particle numbers: constant, or shrinking / growing from frame to frame
         # (frame t keeps the first Ns[t] particles; ids and types are those of the prefix)
         self.Ns = [N] * T
-        if r.get("nvary") and not self.exact:
+        if r.get("nvary") and not self.exact and N >= 5:
             for t in range(1, T):
                 self.Ns[t] = int(rng.integers(max(3, min(N, 4)), N + 1))
                 self.frames[t] = self.frames[t][: self.Ns[t]]
-        if r.get("grow") and not self.exact and T > 1:
+        if r.get("grow") and not self.exact and T > 1 and N >= 5:
             # the first frame is the small one: later frames hold particles frame 0 never had
             n0 = max(3, min(N, 4), K, N // 2)
             self.Ns[0] = n0
@@ -132,7 +132,7 @@ class Config:
         self.Nmin = min(self.Ns)
         types = np.concatenate([np.arange(1, K + 1), rng.integers(1, K + 1, size=max(0, N - K))])[:N]
         self.types = rng.permutation(types).astype(int)
-        if r.get("grow") and not self.exact and T > 1:
+        if r.get("grow") and not self.exact and T > 1 and N >= 5:
             self.types[:K] = np.arange(1, K + 1)      # the small first frame still holds every species
         # per-frame species: the same for every frame, or reassigned from frame to frame
         # (reactive / semi-grand-canonical runs); every species keeps at least one particle
